@@ -89,6 +89,13 @@ def step (d : DSt) (w : List String) : DSt × String :=
     match v.toNat?, parseTxs txs with
     | some v, some txs => forgeOp d v txs .applied
     | _, _ => bad
+  | ["forge", v, txs, _vc] =>
+    -- `vc=…`: the application answers AfterTransactionsExecute of this block with a validator /
+    -- threshold change; the header bookkeeping and the selection do not depend on it and the
+    -- generated block is valid (Props/C15_Accept.lean: C15_forged_block_accepted_with_validator_change)
+    match v.toNat?, parseTxs txs with
+    | some v, some txs => forgeOp d v txs .applied
+    | _, _ => bad
   | ["forgedrop", v, txs] =>
     match v.toNat?, parseTxs txs with
     | some v, some txs => forgeOp d v txs .dropped
